@@ -682,72 +682,116 @@ class MTVRPAdapter(RoutingAdapter):
         return out
 
     # ---------------------------------------------------------------- C05: spec enumeration vs exhaustive mask expansion
+    # tiny exact-grid instances enumerated on EVERY run, one per comparison site of the mask met with equality
+    # (name, preset whose features the instance has, site, speed); delta = 0: the target route satisfies the constraint exactly
+    C05_SITES = [("capl", "cvrp", "capl", 1.0), ("capb", "vrpb", "capb", 1.0), ("capb-open", "ovrpb", "capb", 1.0),
+                 ("limit", "vrpl", "limit", 1.0), ("limit-open", "ovrpl", "limit", 1.0), ("limit-b", "vrpbl", "limit", 1.0),
+                 ("twc", "vrptw", "twc", 1.0), ("twc@2", "vrptw", "twc", 2.0), ("twd@.5", "vrptw", "twd", 0.5), ("twd@2", "vrptw", "twd", 2.0)]
+
+    def c05_site_items(self, rng):
+        env = self.witness_env()
+        out = []
+        for name, preset, site, speed in self.C05_SITES:
+            td, route = self.exact_instance(rng, 3, feats(preset), site, 0, speed)
+            it = self._fake_item(env, td, [], {"kind": "exact/c05-site/%s" % name, "target_route": route})
+            it.variant = {"num_loc": 3, "preset": preset}
+            out.append(it)
+        return out
+
+    def _enumerate(self, ctx, it, stats):
+        """the property itself on one small instance: every solution enumerated from the problem definition must be among
+        the complete sequences found by exhaustive expansion of the real mask"""
+        sols = self.feasible_solutions(it.env, it.td_reset, it.variant)
+        depth = 2 * (2 * (it.td_in["locs"].shape[1] - 1) + 1) + 2
+        reach, trunc = envh.expand_all(it.env, it.td_in, max_depth=depth)
+        if trunc:
+            # small instance: the cap on the number of sequences is not hit, so this is an admitted sequence that does not
+            # finish within twice the proven bound; the complete ones found are still all the complete ones of that length,
+            # and every canonical solution is shorter
+            ctx.count("%s/c05_unfinished_sequences_exist" % self.name)
+        R = {self.strip(x) for x in reach}
+        S = {self.strip(x) for x in sols}
+        stats["inst"] += 1
+        stats["sol"] += len(S)
+        ctx.count("%s/c05_enumerated_instances" % self.name)
+        ctx.count("%s/c05_feasible_solutions" % self.name, len(S))
+        ctx.count("%s/c05_mask_reachable" % self.name, len(R))
+        ctx.seen({"e": self.name, "c05": sorted(S)[:3], "k": it.meta.get("kind"), "v": it.variant, "i": str(it.td_in["locs"].tolist())})
+        missing = S - R
+        if missing:
+            stats["missing"] += len(missing)
+            # report the hidden solution with a boundary-tight step first (classified signature), else the smallest
+            spec = self.spec_data(it.td_in)
+            ranked = sorted(missing, key=lambda q: (not any(self.route_faults(spec, r)[1] for r in self.split_routes(q)), q))
+            hidden = list(ranked[0])
+            fake = self._fake_item(it.env, it.td_in, hidden, it.meta)
+            fake.variant = it.variant
+            v = envh.verdict(it.env, it.td_reset, torch.tensor([hidden + [0]], dtype=torch.int64))
+            ctx.failure(self.signature(fake, 16, 0),
+                        fake.replay({"what": "a solution feasible by the problem definition is not reachable through the mask",
+                                     "hidden_solution": hidden + [0], "shipped_checker_accepts_it": v,
+                                     "mask_at_reset": it.td_reset["action_mask"][0].tolist(),
+                                     "n_hidden": len(missing), "n_feasible": len(S), "n_reachable": len(R)}),
+                        tag=self.name)
+        stats["extra"] += len(R - S)
+
     def extra_c05(self, ctx, tier, items):
         out = self.flags(ctx, items)
         rng = ctx.rng
         limit = self.tiny if tier == "quick" else self.tiny + 1
-        budget = 12 if tier == "quick" else 24
-        # exact-grid tiny instances, spread over the presets; then the hand-built boundary instances
-        by_preset = {}
-        seen = set()
+        budget = 6 if tier == "quick" else 16
+        stats = {"inst": 0, "sol": 0, "missing": 0, "extra": 0}
+        done = set()
+        # (1) always: one tiny instance per tight site, the two hand-built speed / depot-return instances of the stream, the
+        #     two boundary witnesses of the (fixed) strict-comparison finding
+        chosen = self.c05_site_items(rng)
         for it in items:
-            if it.batch != "solo" or it.variant.get("num_loc", 99) > limit or not str(it.meta.get("kind", "")).startswith("exact"):
-                continue
-            if id(it.td_in) in seen:
-                continue
-            seen.add(id(it.td_in))
-            by_preset.setdefault(it.variant["preset"], []).append(it)
-        chosen = []
-        pools = [v for _, v in sorted(by_preset.items())]
-        for p in pools:
-            rng.shuffle(p)
-            # popped from the end: instances with speed != 1 (time != distance) are enumerated first
-            p.sort(key=lambda it: (float(it.td_in["speed"][0, 0]) != 1.0, str(it.meta.get("kind", "")).startswith("exact/hand")))
-        while pools and len(chosen) < budget:
-            for p in list(pools):
-                if p and len(chosen) < budget:
-                    chosen.append(p.pop())
-                if not p:
-                    pools.remove(p)
+            if it.batch == "solo" and str(it.meta.get("kind", "")).startswith("exact/hand") and id(it.td_in) not in done:
+                done.add(id(it.td_in))
+                chosen.append(it)
         env = self.witness_env()
         for name, td, acts in self.witnesses()[:2]:
             chosen.append(self._fake_item(env, td, acts, {"kind": "witness/" + name}))
-        n_inst = n_sol = n_missing = n_extra = 0
+        # (2) tiny exact-grid instances of the stream, spread over the presets, speed != 1 first
+        by_preset = {}
+        for it in items:
+            if it.batch != "solo" or it.variant.get("num_loc", 99) > limit or not str(it.meta.get("kind", "")).startswith("exact"):
+                continue
+            if id(it.td_in) in done:
+                continue
+            done.add(id(it.td_in))
+            by_preset.setdefault(it.variant["preset"], []).append(it)
+        pools = [v for _, v in sorted(by_preset.items())]
+        for p in pools:
+            rng.shuffle(p)
+            p.sort(key=lambda it: float(it.td_in["speed"][0, 0]) != 1.0)          # popped from the end
+        n0 = len(chosen)
+        while pools and len(chosen) - n0 < budget:
+            for p in list(pools):
+                if p and len(chosen) - n0 < budget:
+                    chosen.append(p.pop())
+                if not p:
+                    pools.remove(p)
         for it in chosen:
-            sols = self.feasible_solutions(it.env, it.td_reset, it.variant)
-            depth = 2 * (2 * (it.td_in["locs"].shape[1] - 1) + 1) + 2
-            reach, trunc = envh.expand_all(it.env, it.td_in, max_depth=depth)
-            if trunc:
-                # tiny instance: the cap on the number of sequences cannot be hit, so this is an admitted sequence that
-                # does not finish within twice the proven bound; the complete ones found are still all the complete ones
-                # of that length, and every canonical solution is shorter
-                ctx.count("%s/c05_unfinished_sequences_exist" % self.name)
-            R = {self.strip(x) for x in reach}
-            S = {self.strip(x) for x in sols}
-            n_inst += 1
-            n_sol += len(S)
-            ctx.count("%s/c05_enumerated_instances" % self.name)
-            ctx.count("%s/c05_feasible_solutions" % self.name, len(S))
-            ctx.count("%s/c05_mask_reachable" % self.name, len(R))
-            ctx.seen({"e": self.name, "c05": sorted(S)[:3], "k": it.meta.get("kind"), "v": it.variant})
-            missing = S - R
-            if missing:
-                n_missing += len(missing)
-                # report the hidden solution with a boundary-tight step first (classified signature), else the smallest
-                spec = self.spec_data(it.td_in)
-                ranked = sorted(missing, key=lambda q: (not any(self.route_faults(spec, r)[1] for r in self.split_routes(q)), q))
-                hidden = list(ranked[0])
-                fake = self._fake_item(it.env, it.td_in, hidden, it.meta)
-                fake.variant = it.variant
-                v = envh.verdict(it.env, it.td_reset, torch.tensor([hidden + [0]], dtype=torch.int64))
-                ctx.failure(self.signature(fake, 16, 0),
-                            fake.replay({"what": "a solution feasible by the problem definition is not reachable through the mask",
-                                         "hidden_solution": hidden + [0], "shipped_checker_accepts_it": v,
-                                         "mask_at_reset": it.td_reset["action_mask"][0].tolist(),
-                                         "n_hidden": len(missing), "n_feasible": len(S), "n_reachable": len(R)}),
-                            tag=self.name)
-            n_extra += len(R - S)
-        out.update({"c05_instances": n_inst, "c05_solutions": n_sol, "c05_hidden": n_missing, "c05_reachable_not_in_spec": n_extra})
+            self._enumerate(ctx, it, stats)
+        # (3) if the mask comparison of this property disagreed somewhere: the PROPERTY on the very instances of the
+        #     disagreement (smallest first), so that a disagreement becomes a concrete hidden-solution replay
+        n_dis = 0
+        if any(("correspondence C05/%s" % self.name) in b for b in ctx.broken):
+            from vt.envprops import evaluate
+            small = [it for it in items if it.td_in["locs"].shape[1] - 1 <= 5 and id(it.td_in) not in {id(c.td_in) for c in chosen}]
+            ok_items, codes = evaluate(self, "C05", self.props["C05"], small, ctx, tag="_dis")
+            bad = {}
+            for it, c in zip(ok_items, codes):
+                if c % 1000 in (1, 2):
+                    bad.setdefault(id(it.td_in), it)
+            cand = sorted(bad.values(), key=lambda it: it.td_in["locs"].shape[1])
+            for it in cand[: (8 if tier == "quick" else 20)]:
+                n_dis += 1
+                ctx.count("%s/c05_enumerated_because_of_disagreement" % self.name)
+                self._enumerate(ctx, it, stats)
+        out.update({"c05_instances": stats["inst"], "c05_solutions": stats["sol"], "c05_hidden": stats["missing"],
+                    "c05_reachable_not_in_spec": stats["extra"], "c05_disagreement_instances": n_dis})
         return out
 
     # ---------------------------------------------------------------- C06: instances outside the documented format
